@@ -8,6 +8,7 @@ import numpy as np
 import torch
 
 from contracts.c12_derivatives import SHAPES, affine_flow_field, interior, spacing_arg
+from contracts.c14_bspline import spline_spec
 from vc import expr as E
 from vc.contract import Raised, register
 
@@ -312,3 +313,47 @@ def _ecol(e, D):
     for i in range(D):
         m[0, i, D] = e[i]
     return m
+
+
+@register
+class BSplineBending:
+    """bending_loss(mode='bspline') / bspline_bending_loss equal the energy of the analytic second derivatives of the spline."""
+
+    target = "deepali.losses.functional:bspline_bending_loss"
+    properties = ("C17",)
+    tol = 1e-3
+
+    def cases(self, tier):
+        yield {"D": 2, "n": [5, 5], "stride": 1, "fn": "bspline_bending_loss"}
+        yield {"D": 2, "n": [5, 6], "stride": 2, "fn": "bending_loss"}
+        yield {"D": 2, "n": [5, 5], "stride": 1, "fn": "bending_loss"}
+
+    def run(self, case, K):
+        import deepali.losses.functional as L
+
+        D, n, s = case["D"], tuple(case["n"]), case["stride"]
+        ec = K.reals("c", (1, D) + n)
+        c = K.tensor(ec, dtype=torch.float64 if K.mode == "sym" else torch.float32)
+        if case["fn"] == "bspline_bending_loss":
+            res = K.call(L.bspline_bending_loss, c, stride=s, reduction="none")
+            h = [E.const(Fraction(2, (n[D - 1 - d] - 1))) for d in range(D)]  # default spacing of flow derivatives: 2 / (n - 1)
+        else:
+            arg, sp = spacing_arg(K, "vector", 1, D)
+            h = sp[0]
+            res = K.call(L.bending_loss, c, mode="bspline", stride=s, spacing=arg, reduction="none")
+        if not K.ensure_returns(res):
+            return
+        st = [s] * D
+        total = None
+        for i in range(D):
+            comp = ec[:, i : i + 1]
+            for d in range(D):
+                for e in range(d, D):
+                    order = [0] * D
+                    order[d] += 1
+                    order[e] += 1
+                    dv = spline_spec(comp, st[::-1], order[::-1])
+                    den = E.mul(h[d], h[e])
+                    term = np.frompyfunc(lambda v, den=den, w=(1 if d == e else 2): E.mul(w, E.div(v, den), E.div(v, den)), 1, 1)(dv)
+                    total = term if total is None else np.frompyfunc(E.add, 2, 1)(total, term)
+        K.ensure_eq("energy", res, total, text="C17: the B-spline bending energy equals the energy of the analytic spline derivatives (second derivatives divided by spacing^2)")
